@@ -17,7 +17,7 @@ ALL_LAYERS = ["array", "constant", "identity", "strided", "morton", "hilbert", "
               "cast", "deref", "nn", "linear"]
 # scalar name -> (C++ type, bytes, is floating point)
 SC = {"f32": ("float", 4, True), "f64": ("double", 8, True), "u64": ("std::size_t", 8, False), "ul": ("unsigned long", 8, False),
-      "i64": ("long", 8, False), "u32": ("unsigned int", 4, False), "i32": ("int", 4, False)}
+      "i64": ("long", 8, False), "u32": ("unsigned int", 4, False), "i32": ("int", 4, False), "u16": ("unsigned short", 2, False)}
 
 
 def prod(xs):
@@ -268,6 +268,8 @@ def _fam():
     # arrays with a non-default index type: the file image (8-byte count) does not depend on it
     S += [[["array", "f32", 3, "u32"]], [["linear", "f32"], ["strided", "u64", 2], ["array", "f64", 1, "u32"]],
           [["nn", "f32"], ["strided", "u64", 2], ["array", "f32", 1, "u32"]]]
+    # a 16-bit coordinate scalar (a field of exactly 2^16 cells is legal: the largest index is 2^16 - 1)
+    S += [[["strided", "u16", 2], ["array", "f32", 1]]]
     return S
 
 
